@@ -11,7 +11,7 @@ var c09Assumptions = []string{
 	"a lexicographic partial-order constraint prunes equivalent interleavings (sound: every Mazurkiewicz trace keeps its minimal linearisation; runs may stop early at any step, so every reachable state is represented); worker symmetry is not exploited",
 	"input elements are pairwise distinct by construction (index tag in the two low bits, upper 62 bits symbolic) and the stage functions keep that tag in their result (upper bits uninterpreted): the stages are generic and cannot inspect elements, so that a value identifies its element and the multiset comparison reduces to boolean 'applied / received / error received' flags per element",
 	"user arrows passed to FMap honour their context (a blocked emit gives way to cancellation) and decide failure before emitting; Filter/Partition predicates that fail return (true, err): the element must be treated as not selected, as the sequential stages do",
-	"data races: every variable shared between library goroutines in pipe/fork is a channel, the WaitGroup or the context (checked by reading the six stage bodies: worker locals are declared inside the worker closure); the engine has no separate race detector, so 'without data races' rests on that reading plus the exactly-once/no-duplicate oracles, which a shared loop variable would break",
+	"data races: the engine turns every load/store of a cell that one library goroutine writes and another one accesses into a step of its own (so a worker variable hoisted out of the worker closure shows up as lost/duplicated elements under some interleaving); in today's pipe/fork no such cell exists - everything shared between library goroutines is a channel, the WaitGroup or the context. The harness's own ghost flags, updated inside user callbacks, are deliberately atomic",
 	"go/ssa (x/tools v0.50.0, generics instantiated) is a faithful lowering of the Go source; the interpreter's semantics is validated by native replay of counterexamples",
 	"integers are fixed-width bit-vectors with Go's wrap-around semantics; user-supplied functions are uninterpreted functions",
 	"solver answers (z3 5.1 primary) are trusted; any error/unknown/timeout makes the check inconclusive (exit 2), never a pass",
